@@ -19,6 +19,8 @@ pub mod telemetry;
 pub mod logs;
 #[path = "agent/ebpf.rs"]
 pub mod ebpf;
+#[path = "agent/keeper.rs"]
+pub mod keeper;
 
 pub fn main() {
     let engine = std::env::var("VERIF_ENGINE").unwrap_or_default();
@@ -31,6 +33,7 @@ pub fn main() {
         "telemetry" => telemetry::run(),
         "logs" => logs::run(),
         "ebpf" => ebpf::run(),
+        "keeper" => keeper::run(),
         _ => {
             eprintln!("unknown engine {:?}", engine);
             std::process::exit(2);
